@@ -1,7 +1,7 @@
 (* C09 -- Schedules conclude, repeat and report exhaustion exactly as documented
    Property theorems only: each proof is one application of a lemma proved in Proofs/, followed by Print Assumptions. *)
 From Coq Require Import ZArith List Bool.
-From CS Require MSTerm OnlineFlags Flags RevConv RevBridge4 RevolveRun PassRepeat Online DiskRun DiskBridge3 HRevRun.
+From CS Require MSTerm OnlineFlags Flags RevConv RevBridge4 RevolveRun PassRepeat Online DiskRun DiskBridge3 HRevRun HRevTop.
 From CS Require Import Actions NAdvance Multistage Exec Sched RunFacts Projections BasicInv MultistageRun AllocTotal TLBridge MixBridge.
 Import ListNotations.
 Open Scope Z_scope.
@@ -159,25 +159,27 @@ Proof. exact (@DiskRun.periodic_terminates). Qed.
 Print Assumptions C09_periodic_terminates.
 End M_C09_periodic_terminates.
 
-(* the offline HRevolve schedule concludes (when its constructor returns) *)
+(* the offline HRevolve schedule concludes *)
 Module M_C09_hrevolve_terminates.
-Import HRevRun.
+Import HRevTop.
 Theorem C09_hrevolve_terminates :
-  forall (N ram disk uf ub wd rd : Z) (L : list Ops.op),
+  forall N ram disk uf ub wd rd : Z,
          1 <= N ->
          1 <= ram ->
-         RevConv.sequence RevConv.KHRevolve N ram disk uf ub wd rd = Actions.Ok L ->
-         exists K : nat,
-           forall k : nat,
-           (K <= k)%nat ->
-           let
-           '(s', m, ls) :=
-            Sched.run_ops (DiskRun.disk_xparams N ram)
-              {|
-                Sched.ob := Sched.ORevF RevConv.KHRevolve N ram disk (RevConv.init_r L); Sched.started := false
-              |} Sched.mon0 (repeat Sched.Next k) in
-            RunFacts.no_raise ls /\ DiskBridge3.leftover_or_ok m /\ Sched.is_exhausted s' = true.
-Proof. exact (@HRevRun.hrevolve_terminates). Qed.
+         0 <= disk ->
+         exists (L : list Ops.op) (K : nat),
+           RevConv.sequence RevConv.KHRevolve N ram disk uf ub wd rd = Actions.Ok L /\
+           (forall k : nat,
+            (K <= k)%nat ->
+            let
+            '(s', m, ls) :=
+             Sched.run_ops (DiskRun.disk_xparams N ram)
+               {|
+                 Sched.ob := Sched.ORevF RevConv.KHRevolve N ram disk (RevConv.init_r L);
+                 Sched.started := false
+               |} Sched.mon0 (repeat Sched.Next k) in
+             RunFacts.no_raise ls /\ DiskBridge3.leftover_or_ok m /\ Sched.is_exhausted s' = true).
+Proof. exact (@HRevTop.hrevolve_terminates_total). Qed.
 Print Assumptions C09_hrevolve_terminates.
 End M_C09_hrevolve_terminates.
 
